@@ -44,9 +44,9 @@ Proof.
 Qed.
 
 Lemma E_prefix ni L t r o v r' res :
-  is_new t = false -> prefix_op t = Some o -> S_New <=? L = false ->
-  PEx false S_Unary r (v, r') -> negb (is_update o) || is_target v = true ->
-  PSx ni L (EUn o v) S_Unary r' res -> PEx ni L (t :: r) res.
+  is_new t = false -> prefix_op t = Some o -> pre_max o <? L = false ->
+  PEx (pre_in o ni) (pre_arg o) r (v, r') -> negb (is_update o) || is_target v = true ->
+  PSx ni L (EUn o v) (spec_level o) r' res -> PEx ni L (t :: r) res.
 Proof.
   intros H0 H1 H1b [n1 Hn1] H2 [n2 Hn2]. exists (S (Nat.max n1 n2)). rewrite parse_expr_S. unfold expr_step. rewrite H0, H1, H1b.
   rewrite (parse_expr_mono n1 (Nat.max n1 n2) _ _ _ _ (Nat.le_max_l _ _) Hn1). rewrite H2.
@@ -260,7 +260,7 @@ Definition right_lvl (o : op) (r : expr) : Z :=
 Definition body (fb sb : bool) (P : Z) (e : expr) : list item :=
   match e with
   | ENew f a => [INew] ++ print_items false false LNew f ++ (if new_parens P a then [ICallOpen] ++ print_items false false LComma a ++ [IClose] else [])
-  | EUn o v => match op_kind o with KPost => print_items false sb (LPostfix - 1) v ++ [IOp o] | _ => [IOp o] ++ print_items false false (LPrefix - 1) v end
+  | EUn o v => match op_kind o with KPost => print_items false sb (LPostfix - 1) v ++ [IOp o] | _ => [IOp o] ++ print_items (op_eqb o UYield && fb) false (op_level o - 1) v end
   | EBin o l r => print_items fb sb (left_lvl o l) l ++ [IOp o] ++ print_items fb false (right_lvl o r) r
   | ECond c y n => print_items fb sb LConditional c ++ [IQuest] ++ print_items false false LYield y ++ [IColon] ++ print_items fb false LYield n
   | ECall f a => print_items false sb LPostfix f ++ [ICallOpen] ++ print_items false false LComma a ++ [IClose]
@@ -290,7 +290,7 @@ Proof. reflexivity. Qed.
 Lemma body_bin fb sb P o l r : body fb sb P (EBin o l r) = print_items fb sb (left_lvl o l) l ++ [IOp o] ++ print_items fb false (right_lvl o r) r.
 Proof. reflexivity. Qed.
 Lemma body_un fb sb P o v : body fb sb P (EUn o v) =
-  match op_kind o with KPost => print_items false sb (LPostfix - 1) v ++ [IOp o] | _ => [IOp o] ++ print_items false false (LPrefix - 1) v end.
+  match op_kind o with KPost => print_items false sb (LPostfix - 1) v ++ [IOp o] | _ => [IOp o] ++ print_items (op_eqb o UYield && fb) false (op_level o - 1) v end.
 Proof. reflexivity. Qed.
 
 Lemma toks_app a b : toks (a ++ b) = toks a ++ toks b.
@@ -421,12 +421,15 @@ Proof.
         apply Z.leb_le. pose proof (ll_of_ge fp (op_level o - 1) l). unfold S_Member in *. lia.
 Qed.
 
+(* below which loop level an unparenthesised unary expression may stand: an UpdateExpression/UnaryExpression
+   anywhere below the update level, a YieldExpression only where an AssignmentExpression is expected *)
+Definition un_lim (o : op) : Z := if op_eqb o UYield then 4 else S_Update.
 Definition lv_ok (fp : bool) (L P : Z) (e : expr) : Prop :=
   match e with
   | EBin o _ _ => wrapped fp P e = true \/ L < op_level o
   | ECond _ _ _ => wrapped fp P e = true \/ (L < LConditional /\ P <= LYield)
   | ECall _ _ => wrapped fp P e = true \/ L < S_Call
-  | EUn _ _ => wrapped fp P e = true \/ L < S_Update
+  | EUn o _ => wrapped fp P e = true \/ L < un_lim o
   | _ => True
   end.
 
@@ -437,7 +440,9 @@ Lemma right_ok_print fp o r :
   op_kind o = KBin -> (o = BComma -> not_comma r) -> lv_ok fp (right_level o) (right_lvl o r) r.
 Proof.
   intros Hk Hc. destruct r as [s|s|b f|t s|u v|o2 a b|c0 y0 n0|t0 i0|f0 a0|f0 a0| |x0 r0]; try exact I;
-    [right; destruct o; try discriminate; reflexivity| |unfold lv_ok; destruct o; try discriminate; first [left; reflexivity | right; split; [reflexivity | discriminate]]
+    [unfold lv_ok, un_lim; destruct (op_eqb u UYield) eqn:Ey;
+       [assert (u = UYield) by (destruct u; try discriminate; reflexivity); subst u; destruct o; try discriminate; first [left; reflexivity | right; reflexivity]
+       |right; destruct o; try discriminate; reflexivity]| |unfold lv_ok; destruct o; try discriminate; first [left; reflexivity | right; split; [reflexivity | discriminate]]
      |right; destruct o; try discriminate; reflexivity].
   unfold lv_ok, wrapped. simpl compound. simpl lvl. simpl andb.
   destruct (op_eqb o BNullish) eqn:En.
